@@ -36,6 +36,7 @@ import (
 
 	"verifharness/internal/mesh"
 	"verifharness/internal/vf"
+	"verifharness/internal/world"
 )
 
 var slots = []string{"storage", "state", "tun", "netstack", "api", "dns", "peering", "switch", "router", "dashboard"}
@@ -512,6 +513,40 @@ func (s *scenario) peer() {
 	}
 	s.notePeer()
 	s.c.Eval(1)
+	for _, n := range []string{"A", "B"} {
+		s.cleanerTick(n)
+	}
+}
+
+// cleanerTick: a running router whose request to a router that does not exist is never answered; the request's 30 s
+// run out (guarded hook) and the router's "clean ping handlers" worker has its once-a-minute tick (guarded hook: the
+// function the worker calls). The tick must come back - a wedged cleaner is a worker that never stops.
+func (s *scenario) cleanerTick(name string) {
+	l := s.insts[name]
+	if l == nil || l.phase != "running" || l.in == nil {
+		return
+	}
+	r := l.in.Router()
+	absent := mesh.Identities(8)[7].IP
+	_, _, _ = r.PingPong.Send(absent, false, 0)
+	if r.PingPong.VerifExpirePongs() == 0 {
+		return // the request could not be sent (no route yet): nothing to clean
+	}
+	done := make(chan struct{})
+	go func() {
+		_ = world.WorkerCtx(func(w *mgr.WorkerCtx) { r.VerifCleanPingHandlers(w) })
+		close(done)
+	}()
+	select {
+	case <-done:
+		s.c.Eval(1)
+		s.macro = append(s.macro, "cleaner-tick("+name+")")
+	case <-time.After(5 * time.Second):
+		// reported at once: stopping a router with a wedged worker takes a minute per module
+		s.c.Violation("cleaner-wedged", fmt.Sprintf("instance %s: the tick of the router's ping handler cleaner did not come back within 5 s after an unanswered request had run out [scenario: %s]", name, strings.Join(s.macro, "; ")), map[string]any{"macro": s.macro}, nil)
+		s.c.Fatal("a router worker is wedged for good: the remaining scenarios would each wait a minute per module to stop - ending the run with what was found")
+		s.bad = append(s.bad, badThing{"cleaner-wedged", fmt.Sprintf("instance %s: the tick of the router's ping handler cleaner did not come back within 5 s after an unanswered request had run out: the worker never stops again (and whoever sends the next request waits with it)", name)})
+	}
 }
 
 func (s *scenario) run(walk []act) {
